@@ -49,7 +49,7 @@ impl CopyHandle {
         // The destination may designate the source itself (another
         // spelling, a hard link or a symlink); creating it below would
         // truncate the source.
-        if to.exists() && is_same_file(from, to)? {
+        if to.try_exists()? && is_same_file(from, to)? {
             return Err(XcpError::InvalidDestination("Source and destination are the same file.").into());
         }
 
@@ -199,8 +199,11 @@ pub fn tree_walker(
 
         // A source ending in `..` (or `/`, `.`) has no name of its own to
         // append; like cp, copy its contents into the destination itself.
+        // A stat of the destination that fails is an error; taking it
+        // for "absent" would silently change where everything goes.
+        let into_dir = !config.no_target_directory && dest.try_exists()? && dest.metadata()?.is_dir();
         let target_base = match sourcedir {
-            Component::Normal(name) if dest.exists() && dest.is_dir() && !config.no_target_directory => dest.join(name),
+            Component::Normal(name) if into_dir => dest.join(name),
             _ => dest.to_path_buf(),
         };
         debug!("Target base is {:?}", target_base);
